@@ -212,5 +212,7 @@ fn c20_password_debug_is_redacted() {
         i += 1;
     }
     kani::cover!(b0 == b'"', "secret containing a quote");
+    kani::cover!(b0 == b'*' && b1 == b'*', "secret made of asterisks");
+    kani::cover!(b0 == b'\\' && b1 == b'n', "secret containing a backslash escape");
     std::mem::forget(p);
 }
